@@ -106,9 +106,12 @@ def idx_to_py(form):
 
 
 @st.composite
-def _index_form(draw, avail, nbase, mask_dim_ok):
+def _index_form(draw, avail, nbase, mask_dim_ok, prefer_slice=False):
     """An index over the available scoped values `avail` (sorted list of ints)."""
     kind = draw(st.sampled_from(["int", "int", "list", "array", "range", "slice", "mask", "all", "missing"]))
+    if prefer_slice and draw(st.booleans()):
+        # a sub-view seen in global scope: slices and ranges count in *global* indices, which exceed the view's size
+        kind = draw(st.sampled_from(["slice", "slice", "range"]))
     hi = max(avail)
     if kind == "all":
         return "all"
@@ -127,8 +130,8 @@ def _index_form(draw, avail, nbase, mask_dim_ok):
         return {"range": [a, b, draw(st.integers(1, 2))]}
     if kind == "slice":
         a = draw(st.integers(0, hi))
-        b = draw(st.integers(a + 1, hi + 2))
-        return {"slice": [a, b, draw(st.integers(1, 2))]}
+        b = draw(st.one_of(st.integers(a + 1, hi + 2), st.none()))
+        return {"slice": [draw(st.sampled_from([a, a, None])) if a == 0 else a, b, draw(st.sampled_from([1, 2, None]))]}
     # mask
     if mask_dim_ok and avail == list(range(len(avail))):
         m = [draw(st.booleans()) for _ in avail]
@@ -207,7 +210,7 @@ def _chain(draw, spec):
             dim = shape[levels.index(op)]
             dims = list(shape) + [len(view.edges)]
             unamb = dims.index(dim) == levels.index(op) and len(avail) == dim
-            form = draw(_index_form(avail, nbase, unamb))
+            form = draw(_index_form(avail, nbase, unamb, prefer_slice=view.scope == "global" and min(avail) > 0))
             chain.append([op, form])
             view = view.at(op, idx_to_set(form, nbase))
         elif op == "scope":
